@@ -281,8 +281,14 @@ def strip_units(data, pad):
     u = len(pad)
     if u == 1:
         return data.rstrip(pad)
-    if len(data) % u:
-        raise ModelGap("unaligned multi-byte strip")
+    t = len(data) % u
+    if t and data[len(data) - t:] == pad[:t]:
+        # an incomplete last unit is padding only if it is the beginning of the pad unit; anything else is payload and stays
+        data = data[:len(data) - t]
+    elif t:
+        if len(set(pad)) > 1:
+            raise ModelGap("ragged non-padding tail with a pad unit of differing bytes: which offsets count as unit boundaries is not defined")
+        return data
     while len(data) >= u and data[len(data) - u:] == pad:
         data = data[:len(data) - u]
     return data
